@@ -4391,14 +4391,8 @@ impl<'a, const HAS_CR: bool> Parser<'a, HAS_CR> {
                 }
                 b'\n' | b'\r' => {
                     // Multiline key - check if next line continues the key
-                    // Skip the line break (CRLF counts as the one break it is)
-                    let mut lookahead = self.pos + self.break_len_at(self.pos);
-                    // Skip leading whitespace on next line
-                    while lookahead < self.input.len()
-                        && matches!(self.input[lookahead], b' ' | b'\t')
-                    {
-                        lookahead += 1;
-                    }
+                    // Skip the line break and any blank lines after it
+                    let lookahead = self.flow_scalar_resume_pos(self.pos);
                     // Check what follows
                     if lookahead >= self.input.len()
                         || matches!(self.input[lookahead], b':' | b',' | b'}' | b']')
@@ -4490,6 +4484,24 @@ impl<'a, const HAS_CR: bool> Parser<'a, HAS_CR> {
         Ok(end)
     }
 
+    /// Where a multi-line flow plain scalar would resume after the line break at
+    /// `pos`: the first byte past that break, any blank lines following it, and
+    /// the next content line's leading white space.
+    ///
+    /// Blank lines have to be skipped before deciding whether the scalar
+    /// continues. Looking only one line ahead took the *next break* of
+    /// `[null\n\n]` for continuation content, so the scalar ran on to the last
+    /// break before `]` and resolved as the string `"null\n"` (`"null "` with CR
+    /// breaks) rather than null.
+    #[inline]
+    fn flow_scalar_resume_pos(&self, pos: usize) -> usize {
+        let mut i = pos;
+        while i < self.input.len() && Self::is_ws_or_break(self.input[i]) {
+            i += 1;
+        }
+        i
+    }
+
     /// Parse an unquoted value in flow context.
     /// Stops at `,`, `}`, `]`, `#` (comment), or newline.
     /// Returns the absolute end position (with trailing whitespace trimmed).
@@ -4508,14 +4520,8 @@ impl<'a, const HAS_CR: bool> Parser<'a, HAS_CR> {
                 }
                 b'\n' | b'\r' => {
                     // Multiline value - check if next line continues the value
-                    // Skip the line break (CRLF counts as the one break it is)
-                    let mut lookahead = self.pos + self.break_len_at(self.pos);
-                    // Skip leading whitespace on next line
-                    while lookahead < self.input.len()
-                        && matches!(self.input[lookahead], b' ' | b'\t')
-                    {
-                        lookahead += 1;
-                    }
+                    // Skip the line break and any blank lines after it
+                    let lookahead = self.flow_scalar_resume_pos(self.pos);
                     // Check what follows
                     if lookahead >= self.input.len()
                         || matches!(self.input[lookahead], b',' | b'}' | b']' | b'#')
@@ -4614,14 +4620,8 @@ impl<'a, const HAS_CR: bool> Parser<'a, HAS_CR> {
                 }
                 b'\n' | b'\r' => {
                     // Multiline key - check if next line continues the key
-                    // Skip the line break (CRLF counts as the one break it is)
-                    let mut lookahead = self.pos + self.break_len_at(self.pos);
-                    // Skip leading whitespace on next line
-                    while lookahead < self.input.len()
-                        && matches!(self.input[lookahead], b' ' | b'\t')
-                    {
-                        lookahead += 1;
-                    }
+                    // Skip the line break and any blank lines after it
+                    let lookahead = self.flow_scalar_resume_pos(self.pos);
                     // Check what follows
                     if lookahead >= self.input.len()
                         || matches!(self.input[lookahead], b',' | b'}' | b']')
@@ -6905,6 +6905,37 @@ mod tests {
             "explicit key 'a's scalar must stop before ': 1' (not swallow it into the key text), \
              and the resulting misaligned ':' must then be rejected, not silently paired with 'a'; got {err:?}"
         );
+    }
+
+    /// A flow plain scalar ends at its last content byte when only blank lines
+    /// separate it from the next flow indicator or comment — whichever line
+    /// break spells them. The one-line lookahead used to take the second
+    /// break for continuation content and keep the first inside the scalar,
+    /// turning `null` into the string `"null\n"` (`"null "` for CR breaks).
+    #[test]
+    fn flow_plain_scalar_stops_before_blank_lines() {
+        for (yaml, expected) in [
+            (&b"[[],634,null\r\r\n]"[..], "[[],634,null]"),
+            (b"[null\n\n]", "[null]"),
+            (b"[null\r\r]", "[null]"),
+            (b"[null \n \t\n ]", "[null]"),
+            (b"[a\n\n,1]", "[\"a\",1]"),
+            (b"[1\n\n# c\n]", "[1]"),
+            (b"{a: true\r\n\r\n}", "{\"a\":true}"),
+            (b"{a\n\n: 1}", "{\"a\":1}"),
+            (b"{? a\n\n: 1}", "{\"a\":1}"),
+            // Blank lines *between* content lines still fold into the scalar.
+            (b"[a\n\nb]", "[\"a\\nb\"]"),
+            (b"[a\r\rb]", "[\"a\\nb\"]"),
+        ] {
+            let index = crate::yaml::YamlIndex::build(yaml).expect("should parse");
+            assert_eq!(
+                index.root(yaml).to_json_document(),
+                expected,
+                "input: {:?}",
+                core::str::from_utf8(yaml)
+            );
+        }
     }
 
     /// `parse_value`'s `Some(b'-') if is_ws_break_or_eoi(..)` arm — an
